@@ -174,11 +174,13 @@ type zzMSender struct {
 	st      *zzMStream
 	headers int
 	ends    int
+	last    api.HeaderMap // the headers of the last response written to the client
 }
 
 func (s *zzMSender) GetStream() types.Stream { return s.st }
 func (s *zzMSender) AppendHeaders(ctx context.Context, h api.HeaderMap, end bool) error {
 	s.headers++
+	s.last = h
 	if end {
 		s.ends++
 	}
@@ -624,5 +626,76 @@ func VerifC03_SilentUpstream() {
 	verif.Assert(done, "engine: every armed timeout expired but the request is still waiting")
 	verif.Assert(sender.headers == 1, "a request whose upstream never answers must get exactly one (timeout) reply")
 	verif.Assert(p.stats.DownstreamRequestActive.Count() == active0-1, "DownstreamRequestActive not released after the timeout")
+	verif.Cover("end")
+}
+
+// zzKeepFilter continues and keeps its handler, as a filter does that may
+// answer the request later (from a timer, another goroutine, a callback).
+type zzKeepFilter struct {
+	handler api.StreamReceiverFilterHandler
+}
+
+func (f *zzKeepFilter) OnDestroy() {}
+func (f *zzKeepFilter) OnReceive(ctx context.Context, h api.HeaderMap, b api.IoBuffer, t api.HeaderMap) api.StreamFilterStatus {
+	return api.StreamFilterContinue
+}
+func (f *zzKeepFilter) SetReceiveFilterHandler(h api.StreamReceiverFilterHandler) { f.handler = h }
+
+// VerifC14_TerminateRace: a receive filter that kept its handler answers the
+// request itself (TerminateStream) while the request is already waiting for
+// its upstream; the upstream's response may arrive right after, before the
+// worker has reacted. If the filter's answer was accepted, the client gets
+// exactly that single response - never the upstream's, never two - and it
+// passes the send filter once; if the upstream's response came first, the
+// filter's late answer is refused and the client gets the upstream's.
+func VerifC14_TerminateRace() {
+	verif.Switches(0)
+	ds, sender, pool, _, ctx := zzMachine(0, false)
+	pool.scripted = true
+	kf := &zzKeepFilter{}
+	ds.streamFilterChain.AddStreamReceiverFilter(kf, api.AfterChooseHost)
+	sf := &zzPSend{}
+	ds.streamFilterChain.AddStreamSenderFilter(sf, api.BeforeSend)
+	done := false
+	go func() {
+		ds.OnReceive(ctx, protocol.CommonHeader{}, nil, nil)
+		done = true
+	}()
+	verif.Settle()
+	ur := ds.upstreamRequest
+	verif.Assume(!done && ur != nil && ur.requestSender != nil && kf.handler != nil) // the request is waiting for its upstream
+	upstreamFirst := verif.Choose("upstream_reply_first", 2) == 1
+	accepted := false
+	if upstreamFirst {
+		ur.OnReceive(ctx, protocol.CommonHeader{"status": "200"}, nil, nil)
+		if verif.Choose("worker_runs_between", 2) == 1 {
+			verif.Settle()
+		} else {
+			verif.EngineOnly("two events before the worker runs: needs a controlled schedule")
+		}
+		if !done {
+			accepted = kf.handler.TerminateStream(504)
+		}
+		verif.Assert(!accepted, "a filter's answer was accepted although the upstream's response had already been received")
+	} else {
+		accepted = kf.handler.TerminateStream(504)
+		verif.Assert(accepted, "a waiting request must accept the filter's answer")
+		if verif.Choose("late_upstream_reply", 2) == 1 {
+			verif.EngineOnly("two events before the worker runs: needs a controlled schedule")
+			ur.OnReceive(ctx, protocol.CommonHeader{"status": "200"}, nil, nil) // the upstream answers right after
+			verif.Cover("late-reply")
+		}
+	}
+	verif.Settle()
+	verif.Assert(done, "the request did not end")
+	verif.Assert(sender.headers == 1 && sf.calls == 1, "the client must get exactly one response, through the send filter once")
+	if sender.headers == 1 && sender.last != nil {
+		_, fromUpstream := sender.last.Get("status")
+		if accepted {
+			verif.Assert(!fromUpstream, "the filter answered the request, but the client was sent the upstream's response")
+		} else {
+			verif.Assert(fromUpstream, "the upstream's response was received first, but the client was sent something else")
+		}
+	}
 	verif.Cover("end")
 }
